@@ -136,6 +136,13 @@ func init() {
 					if err := runFileCase(fc, tr); err != nil {
 						return err
 					}
+					// the same node opened with a zero LinkContext / a nil context (which go-ipld-prime accepts)
+					nc := sh.fileCase(fmt.Sprintf("seq-%d-%d-%d-%s-nilctx", sh.n, sh.w, sh.last, open))
+					nc.Open, nc.Mode, nc.NilCtx = open, "seq", true
+					nc.Script = [][]any{{"asbytes"}, {"open", 1}, {"readall", 1, L + 7}}
+					if err := runFileCase(nc, tr); err != nil {
+						return err
+					}
 				}
 			}
 		case "deep":
@@ -253,6 +260,10 @@ func init() {
 						fc.Missing = []int{m}
 						fc.NotFound = m%3 == 0
 						fc.Timeout = m%3 == 1
+						if open == "direct" {
+							// every class of missing block also with an I/O error that wraps io.EOF / io.ErrUnexpectedEOF
+							fc.ErrKind = []string{"eofwrap", "unexpectedeof"}[m%2]
+						}
 						fc.Script = [][]any{{"asbytes"}, {"open", 1}, {"readall", 1, 1}, {"open", 2}, {"readall", 2, sh.k + 1},
 							{"open", 3}, {"readall", 3, L + 7}, {"seek", 3, 0, 0}, {"readall", 3, 2},
 							// the block comes back: every reader resumes exactly where the error left it
@@ -351,8 +362,10 @@ func init() {
 				ch := chunkers[r.Intn(len(chunkers))]
 				switch ch {
 				case "size-%d":
-					fc.Chunker = fmt.Sprintf("size-%d", 1+r.Intn(4096))
-					fc.Len = r.Intn(1 << 17)
+					cs := 1 + r.Intn(4096)
+					fc.Chunker = fmt.Sprintf("size-%d", cs)
+					// at most ~600 leaves: the block table is walked by TLC for every recorded event
+					fc.Len = r.Intn(min(1<<17, cs*600) + 1)
 				case "rabin-32-64-128":
 					fc.Chunker = ch
 					fc.Len = r.Intn(1 << 14)
